@@ -74,7 +74,7 @@ func (c codecCase) run() (out string, panicMsg string) {
 	key := string(kb)
 	var res string
 	p, msg := lib.Catch(func() {
-		inst, err := r.build(r, []string{key}, c.Init)
+		inst, err := r.build(r, []string{key}, c.Init, nil)
 		if err != nil {
 			res = "build-error: " + err.Error()
 			return
